@@ -239,6 +239,9 @@ AXIS_FAMILIES = {
     'STRY': (lambda i: F(i), lambda j: _STR[j]),
     # a boundary 1 unit from the border of cells 64 .. 192 units tall / wide: whether the cut leaves a piece thinner than
     # 1% of the cell's other side depends on the cuts made before in the other direction
+    # allocations of 1e7 units with decimal coordinates: the rounding of a halving exceeds a tolerance that does not
+    # grow with the square of the scale
+    'B7': (lambda i: [F(0), F(7628044, 10), F(10000000), F(120000003, 10)][i], lambda j: [F(0), F(5000000), F(70000001, 10), F(9000000)][j]),
     'SLVX': (lambda i: [F(0), F(1), F(128), F(256)][i], lambda j: [F(0), F(64), F(128), F(192)][j]),
     'SLVY': (lambda i: [F(0), F(64), F(128), F(192)][i], lambda j: [F(0), F(1), F(128), F(256)][j]),
 }
@@ -332,12 +335,12 @@ def shard_plan(tier):
     """list of shard descriptors: (family, grid, layout index range)"""
     out = []
     if tier == 'quick':
-        plan = [('HALF', 3, 2, 3, True), ('DEC1', 2, 3, 2, False), ('STRX', 3, 2, 2, False), ('STRY', 2, 3, 2, False), ('P300', 3, 2, 2, False),
+        plan = [('HALF', 3, 2, 3, True), ('DEC1', 2, 3, 2, False), ('STRX', 3, 2, 2, False), ('STRY', 2, 3, 2, False), ('P300', 3, 2, 2, False), ('B7', 3, 2, 2, False),
                 ('SLVX', 3, 3, 3, False), ('SLVY', 3, 3, 3, False)]
     else:
         # depth 2 with all 8 operations on the larger plan; depth 3 (6 operations) on the small plan marked deep=True
         plan = [('HALF', 3, 2, 3, True), ('DEC1', 3, 2, 3, True), ('DEC3', 2, 3, 3, False), ('STRX', 3, 2, 3, False), ('STRY', 2, 3, 3, False),
-                ('P300', 3, 2, 3, False), ('DEC7', 4, 1, 4, False), ('HALF', 2, 2, 2, 'deep'), ('DEC1', 2, 1, 2, 'deep'),
+                ('P300', 3, 2, 3, False), ('DEC7', 4, 1, 4, False), ('HALF', 2, 2, 2, 'deep'), ('DEC1', 2, 1, 2, 'deep'), ('B7', 3, 2, 3, False),
                 ('SLVX', 3, 3, 3, False), ('SLVY', 3, 3, 3, False)]
     for (fam, nx, ny, kmax, rich) in plan:
         n = len(layouts(nx, ny, kmax))
